@@ -229,6 +229,134 @@ def discard_depends_on_extent(ctx):
                'but extends past it is dropped whole (bytes lost, later offsets stuck) or a longer chunk loses to a shorter one')
 
 
+def _conjuncts(e, pol):
+    """Atoms (expr, polarity) that all hold when `e` evaluates to `pol`."""
+    if isinstance(e, ast.UnaryOp) and isinstance(e.op, ast.Not):
+        return _conjuncts(e.operand, not pol)
+    if isinstance(e, ast.BoolOp) and ((isinstance(e.op, ast.And) and pol) or (isinstance(e.op, ast.Or) and not pol)):
+        out = []
+        for v in e.values:
+            out += _conjuncts(v, pol)
+        return out
+    return [(e, pol)]
+
+
+def _len_of(e, pred):
+    return isinstance(e, ast.Call) and isinstance(e.func, ast.Name) and e.func.id == 'len' and len(e.args) == 1 and pred(e.args[0])
+
+
+@rule('C16.e', ['C16', 'C02'], floor=1)
+def pending_duplicate_loses_only_to_longer(ctx):
+    """A request is dropped in favour of data already pending at the same offset only when
+    the pending chunk is at least as long: every discard path of DeferQueue.request_writes
+    that consults the pending table must carry a comparison establishing
+    len(incoming) <= len(pending).  With the comparison turned round a longer re-delivery
+    (a retry that split the stream at other boundaries) is dropped for a shorter pending
+    chunk and the bytes between the two ends never reach the file."""
+    f = ctx.func(f'{DQ}.request_writes')
+    g = ctx.cfg(f)
+    data = f.params[2] if len(f.params) > 2 else 'data'
+    data_names = {data}
+    stores = _store_nodes(g, f, data_names)
+    ctx.need(stores, 'request_writes no longer stores the incoming data anywhere')
+    pend = set()
+    for n in own_nodes(f.node):
+        if isinstance(n, ast.Assign) and len(n.targets) == 1 and isinstance(n.targets[0], ast.Name) \
+                and '_pending_offsets' in q.attr_names_in(n.value):
+            pend.add(n.targets[0].id)
+
+    def is_pending(e):
+        return bool(q.names_in(e) & pend) or '_pending_offsets' in q.attr_names_in(e)
+
+    def is_data(e):
+        return bool(q.names_in(e) & data_names) and not is_pending(e)
+    paths = []
+
+    def dfs(n, conds, seen):
+        if len(paths) > 500:
+            return
+        if n is g.exit:
+            paths.append(list(conds))
+            return
+        for m, l in g.succ[n]:
+            if l not in g.NORMAL or m in stores or m in seen:
+                continue
+            c2 = conds
+            if n.kind in ('if', 'while') and l in ('t', 'f'):
+                c2 = conds + [(n.ast, l == 't')]
+            dfs(m, c2, seen | {m})
+    dfs(g.entry, [], {g.entry})
+    seen_keys = set()
+    n_ob = 0
+    for conds in paths:
+        atoms = []
+        for e, pol in conds:
+            atoms += _conjuncts(e, pol)
+        if not any(is_pending(e) for e, _ in atoms):
+            continue
+        key = ' and '.join(('' if pol else 'not ') + f'({norm(e)})' for e, pol in conds)
+        if key in seen_keys:
+            continue
+        seen_keys.add(key)
+        ok = False
+        for e, pol in atoms:
+            if not (isinstance(e, ast.Compare) and len(e.ops) == 1):
+                continue
+            l, op, r = e.left, e.ops[0], e.comparators[0]
+            if _len_of(l, is_data) and _len_of(r, is_pending):
+                # len(data) OP len(pending)
+                ok |= (pol and isinstance(op, (ast.LtE, ast.Lt, ast.Eq))) or (not pol and isinstance(op, (ast.Gt, ast.GtE)))
+            elif _len_of(l, is_pending) and _len_of(r, is_data):
+                # len(pending) OP len(data)
+                ok |= (pol and isinstance(op, (ast.GtE, ast.Gt, ast.Eq))) or (not pol and isinstance(op, (ast.Lt, ast.LtE)))
+        n_ob += 1
+        ctx.ob(f, f'pending-duplicate discard when {key}', ok,
+               'a request is dropped because data is already pending at its offset without establishing that the pending chunk is at '
+               'least as long as the incoming one: a longer re-delivery loses to a shorter pending chunk and the bytes in between are '
+               'never written (the download stalls short or completes with a gap)')
+    if not n_ob:
+        # duplicates at a pending offset are always queued: the contiguity rule C16.c then carries the whole argument
+        ctx.ob(f, 'no discard path consults the pending table', True, '', trivial=True)
+
+
+@rule('C16.f', ['C16', 'C11', 'C02'], floor=1)
+def pending_table_is_keyed_consistently(ctx):
+    """Contradiction rule for DeferQueue's pending table: a removal `del
+    self._pending_offsets[K]` (or .pop(K)) that is guarded by a look-up in the same table
+    must look up the same key K, and the value it is compared with must come from the same
+    heap entry as K.  A guard on one key and a removal of another is a belief about the
+    wrong entry: the entry that was meant stays in the table for the rest of the transfer
+    (its chunk stays referenced after it was written: the in-memory bound grows with the
+    object), or a live entry is dropped and its duplicate is queued again."""
+    f = ctx.func(f'{DQ}.request_writes')
+    n = 0
+    for x in own_nodes(f.node):
+        key = None
+        if isinstance(x, ast.Delete):
+            for t in x.targets:
+                if isinstance(t, ast.Subscript) and dotted(t.value) == 'self._pending_offsets':
+                    key = t.slice
+        elif isinstance(x, ast.Call) and (dotted(x.func) or '') == 'self._pending_offsets.pop' and x.args:
+            key = x.args[0]
+        if key is None:
+            continue
+        n += 1
+        looked = []
+        for e, pol in q.guards(x):
+            for y in ast.walk(e) if isinstance(e, ast.AST) else []:
+                if isinstance(y, ast.Call) and (dotted(y.func) or '') == 'self._pending_offsets.get' and y.args:
+                    looked.append(y.args[0])
+                elif isinstance(y, ast.Subscript) and dotted(y.value) == 'self._pending_offsets':
+                    looked.append(y.slice)
+                elif isinstance(y, ast.Compare) and len(y.ops) == 1 and isinstance(y.ops[0], (ast.In, ast.NotIn)) and dotted(y.comparators[0]) == 'self._pending_offsets':
+                    looked.append(y.left)
+        bad = [norm(k) for k in looked if norm(k) != norm(key)]
+        ctx.ob(f, f'removal of self._pending_offsets[{norm(key)}] is guarded by look-ups of the same key', not bad,
+               f'the guard looks up {bad} but the entry removed is {norm(key)}: the entry the guard was about stays in (or a live one leaves) the pending table')
+    if not n:
+        ctx.ob(f, 'no keyed removal from the pending table', True, '', trivial=True)
+
+
 @rule('C16.c', ['C16', 'C02', 'C11'], floor=3)
 def release_is_contiguous(ctx):
     """The release loop compares the smallest queued offset with _next_offset; each
@@ -279,6 +407,34 @@ def release_is_contiguous(ctx):
             ok_t = lo is not None and hi is None and _peq(lo_i, f'self._next_offset - {off}')
             ctx.ob(f, n, ok_t, f'a trim must drop exactly the bytes already released: {n.targets[0].id}[self._next_offset - {off}:]; a wrong index keeps written bytes or drops unwritten ones')
     ctx.ob(f, 'overlap trims found', ntr >= 1, 'request_writes no longer trims data that overlaps the released prefix')
+    # a popped entry is skipped (continue) only when it lies entirely inside the released prefix:
+    # len(<its data>) <= self._next_offset - <its offset>.  Measured against any other chunk (the incoming one, say) an entry
+    # with an unwritten tail is dropped and everything queued behind the hole stays withheld for ever.
+    for cn in [n for n in ast.walk(loop) if isinstance(n, ast.Continue) and q.in_loop(n) is loop]:
+        atoms = []
+        for e, pol in q.guards(cn):
+            if isinstance(e, ast.AST) and any(e is x for x in ast.walk(loop)) and e is not loop.test:
+                atoms += _conjuncts(e, pol)
+        ok_c = False
+        for e, pol in atoms:
+            if not (isinstance(e, ast.Compare) and len(e.ops) == 1):
+                continue
+            l, op, r = q.inline_locals(f, e.left), e.ops[0], q.inline_locals(f, e.comparators[0])
+            if (isinstance(op, (ast.Gt, ast.GtE)) and pol) or (isinstance(op, (ast.Lt, ast.LtE)) and not pol):
+                l, r = r, l
+            elif not ((isinstance(op, (ast.Lt, ast.LtE)) and pol) or (isinstance(op, (ast.Gt, ast.GtE)) and not pol)):
+                continue
+            # now the atom states  l <= r  (or l < r)
+            for dn, on in pairs.items():
+                if dn == f.params[2]:
+                    continue
+                try:
+                    if _peq(ast.BinOp(left=r, op=ast.Sub(), right=l), f'self._next_offset - {on} - len({dn})'):
+                        ok_c = True
+                except Exception:
+                    pass
+        ctx.ob(f, f'queued entry skipped only when wholly released ({" and ".join(norm(e) for e, _ in atoms) or "unconditional"})', ok_c,
+               'the skip test must compare the released overlap with the length of the popped entry itself')
     pops = [c for c in ast.walk(loop) if isinstance(c, ast.Call) and norm(c.func) == 'heapq.heappop']
     ctx.ob(f, 'heapq.heappop(self._writes) yields the smallest offset', len(pops) == 1 and norm(pops[0].args[0]) == 'self._writes', 'writes must be released in ascending offset order')
     pushes = [c for c in own_calls(f.node) if norm(c.func) == 'heapq.heappush']
@@ -331,7 +487,7 @@ def released_writes_submitted_in_order_atomically(ctx):
 # C02.b per-attempt cursor reset
 # ---------------------------------------------------------------------------
 
-@rule('C02.b', ['C02'], floor=4)
+@rule('C02.b', ['C02', 'C16'], floor=4)
 def per_attempt_cursor_reset(ctx):
     """For each stream retry loop the write position used inside the attempt is
     (re)established on every path from the loop head to its first use: a cursor
